@@ -20,6 +20,21 @@ def show(res, verbose=False):
 if __name__ == "__main__":
     what = sys.argv[1]
     t0 = time.time()
+    if what == "mustfail":
+        # vacuity guards: deliberately wrong specifications must be REFUTED by the same machinery
+        import z3
+        real = E.spec_bitpacked_value
+        E.spec_bitpacked_value = lambda mem, in0, w, j, ob=32: z3.substitute(real(mem, in0, w, j, ob), (z3.BitVecVal((1 << w) - 1, 40), z3.BitVecVal((1 << (w - 1)) - 1, 40)))
+        r = E.roundtrip_bitpacked(5, 10000)
+        print("roundtrip with a decoder mask one bit short:", {k: r.status(k) for k in r.order}, "(must be refuted)")
+        E.spec_bitpacked_value = real
+        realsb = E.specbyte_of
+        E.specbyte_of = lambda fn_bit, i: z3.Concat(*[fn_bit(8 * i + u) for u in range(8)])       # MSB-first bytes: wrong
+        r = E.encode_bitpacked_closure(3, 10000)
+        bad = [k for k in r.order if r.status(k) == REFUTED and ("output_prefix_is_spec_and_frame" in k or "payload_bits_are_spec" in k)]
+        print("encode_bitpacked[w=3] against an MSB-first byte spec: refuted memory-invariant / whole-payload obligations:", len(bad), bad[:2], "(must be > 0)")
+        E.specbyte_of = realsb
+        sys.exit(0)
     if what == "bp":
         ws = range(0, 33) if sys.argv[2] == "all" else [int(x) for x in sys.argv[2].split(",")]
         for w in ws:
